@@ -119,6 +119,12 @@ def type_tags(ty, env, path=()):
         if ty[1] not in env:
             raise Illegal("undefined reference " + ty[1])
         if ty[1] in path:
+            # `A ::= B`, `B ::= A`; `R ::= CHOICE { x [0] BOOLEAN, y R }`: the tag would have to be
+            # known to determine itself.  X.680 gives such a type no tag — `A ::= A` defines no type
+            # at all (3.8.62 NOTE: a recursive definition must have a finite value), and the
+            # alternatives of a CHOICE need *distinct* tags (29.3), which an alternative carrying
+            # the tags of the CHOICE itself cannot have.  Not legal ASN.1: outside the oracle's
+            # domain, inside the correspondence (the repaired resolver answers "no tag").
             raise Illegal("tag of " + ty[1] + " depends on itself")
         tg, dty = env[ty[1]]
         return {tg} if tg is not None else type_tags(dty, env, path + (ty[1],))
@@ -208,6 +214,51 @@ def is_untagged_choice(ty, env):
         tg, dty = env[ty[1]]
         return tg is None and is_untagged_choice(dty, env)
     return False
+
+
+def structural_tag_cyclic(ty, env, path=()):
+    """the tag of the (untagged) type, read WITHOUT automatic tagging of CHOICE alternatives (an
+    untagged alternative takes the tag of its type — the reading of finding tags.choice-autotag),
+    runs into a reference that is being resolved already.  Root alternatives are read left to
+    right up to the first one without a tag."""
+    if ty[0] == "r":
+        if ty[1] not in env:
+            return False
+        if ty[1] in path:
+            return True
+        tg, dty = env[ty[1]]
+        return tg is None and structural_tag_cyclic(dty, env, path + (ty[1],))
+    if ty[0] == "c":
+        for i, (tg, a) in enumerate(ty[1]):
+            if ty[2] is not None and i >= ty[2]:
+                break
+            if tg is None:
+                if structural_tag_cyclic(a, env, path):
+                    return True
+                try:
+                    type_tags_structural(a, env, path)
+                except Illegal:
+                    return False        # this alternative has no tag: the later ones are not read
+    return False
+
+
+def type_tags_structural(ty, env, path=()):
+    """the smallest tag in the structural reading (no automatic tagging); Illegal when there is none"""
+    if ty[0] == "b":
+        return ("U", UNIVERSAL[ty[1]])
+    if ty[0] == "r":
+        if ty[1] not in env or ty[1] in path:
+            raise Illegal("no tag")
+        tg, dty = env[ty[1]]
+        return tg if tg is not None else type_tags_structural(dty, env, path + (ty[1],))
+    tags = []
+    for i, (tg, a) in enumerate(ty[1]):
+        if ty[2] is not None and i >= ty[2]:
+            break
+        tags.append(tg if tg is not None else type_tags_structural(a, env, path))
+    if not tags:
+        raise Illegal("no tag")
+    return min(tags, key=key)
 
 
 def follows_auto_choice(ty, env, path=()):
@@ -314,12 +365,21 @@ class TagsStream(runner.Stream):
             "tags set a:C0:bool,b:-:setof",                              # tags.setof-const-tag
             "tags set a:C0:bool,b:-:bool!",                              # tags.default-const-tag
             "tags set a:-:bool",                                         # tags.set-own-tag
-            "tags set! a:-:@R,b:A1:bool R=-:ch[-~@R|-~int]",             # tags.cyclic-abort
+            # reference cycles (regression corpus of the repaired finding tags.cyclic-abort; `!` = in a
+            # child process, so that a stack overflow would be the answer `abort` of this request)
+            "tags set! a:-:@R,b:A1:bool R=-:ch[-~@R|-~int]",             # legal; now tags.choice-autotag
             "tags seq! a:-:@R R=-:ch[-~@R|-~int]",
-            "tags set! a:-:int A=-:@B;B=-:@A",                           # not legal ASN.1, same abort
+            "tags set! a:-:int A=-:@B;B=-:@A",                           # not legal ASN.1: no tag
+            "tags set! a:-:@A,b:P1:int A=-:@B;B=-:@A",
+            "tags set! a:-:@A,b:P1:int A=-:@A",
             "tags set! a:-:@R,b:A1:bool R=-:ch[C0~@R|C1~int]",           # cycle cut by explicit tags
             "tags set! a:C5:@A,b:A1:bool A=P1:@B;B=-:@A",
             "tags set! a:-:int B=-:ch[-~@Nope|-~@B]",                    # collect() stops at the first None
+            "tags set! a:-:@R,b:A1:bool R=-:ch[-~int|-~ch[-~@R]]",       # cycle through a nested CHOICE
+            "tags set! a:-:@R,b:A1:bool R=-:ch[C3~int|-~@R]",            # not legal: tag depends on itself
+            "tags set! a:-:@R,b:-:@R,c:A1:bool R=-:ch[-~@Q|-~int];Q=-:@R",   # every component starts with an empty stack
+            "tags set! a:-:@D,b:A1:bool D=-:ch[-~@Y|-~@Y];Y=-:bool",        # the stack is popped: the same name twice, no cycle
+            "tags set! a:-:@D,b:A1:bool D=-:ch[-~@Z|-~ch[-~@Z|-~@X]];X=A7:int;Z=-:@X",
             "tags set -", "tags seq -", "tags set ...", "tags seq ...",
             "tags set a:A1:int,b:-:@Nope", "tags seq a:-:int,b:-:@Nope", "tags set a:C1:@Nope,b:-:int",
             "tags set a:C1:ch[-~@Nope],b:-:int", "tags set a:-:@Q,b:A1:bool Q=-:ch[-~@Nope|-~int]",
@@ -396,9 +456,22 @@ class TagsStream(runner.Stream):
         except Illegal:
             return []
         if not ans.startswith("ok "):
-            if t[1].endswith("!") and ans == "abort":
-                return [("tags.cyclic-abort",
-                         "legal module (recursive type, tags well defined) but the generator overflows its stack")]
+            if ans == "abort":
+                # (was finding tags.cyclic-abort, repaired: TagResolver keeps a stack of the names
+                #  being resolved)
+                return [(None, "legal module, but the generator does not return (stack overflow, process abort)")]
+            if ans == "err other" and any(
+                    follows_auto_choice(f["ty"], a["env"]) and structural_tag_cyclic(f["ty"], a["env"])
+                    for f in a["fields"]):
+                # a legal recursive CHOICE none of whose alternatives carries a tag, e.g.
+                # `R ::= CHOICE { x R, y INTEGER }`: automatic tagging gives the alternatives [0] [1],
+                # the tag of R is well defined.  The generator ignores the automatic tags (finding
+                # tags.choice-autotag), looks for the tag of `x` in R itself, finds none (before the
+                # repair: recursed for ever) and prints `complex(R)` without a tag, which stage 2
+                # refuses: a compile error for a legal module, same root cause.
+                return [("tags.choice-autotag",
+                         "legal module (recursive CHOICE, automatic tags well defined), the generator "
+                         "finds no tag for it and answers `err other`")]
             if a["markers"] and a["markers"][0] == 0:
                 # `SET { ... }`: same root cause as the marker in front of the first component
                 return [("tags.marker-first", f"legal module (marker first), the generator answers `{ans}`")]
@@ -533,7 +606,7 @@ class Spec(runner.Spec):
         "the module header's tagging mode is ignored by the crate (it always behaves like AUTOMATIC TAGS); the generated modules say AUTOMATIC TAGS, so X.680's automatic tagging is the reference",
         "extension additions of a SET are ordered by tag after the root components, as the property text says; X.691 20.1 would keep them in textual order (the crate sorts them) — not judged here",
         "a second root component list after the extension additions (`a, ..., b, ..., c`) is outside the domain (the crate's grammar has one `extension_after` index)",
-        "duplicate tags within one SET, undefined references and modules whose tags depend on themselves are outside the oracle's domain; they stay in the correspondence stream (stability of the sort, compile error, abort)",
+        "duplicate tags within one SET, undefined references and modules in which a tag depends on itself (`A ::= B`, `B ::= A`; X.680 gives such a type no tag, it is not legal ASN.1) are outside the oracle's domain; they stay in the correspondence stream (stability of the sort, compile error, 'no tag' for a reference cycle)",
         "imports / multi-module scopes are not modelled (one module per request)",
         "wire order for values is covered by the uper stream; here the order of the read_value/write_value calls in the generated read_seq/write_seq is taken as the wire and presence-bit order",
         "Rust semantics of the mirrored functions is tied to the Lean mirror only by differential execution (stream `tags`)",
